@@ -156,3 +156,36 @@ Definition h09 : store :=
 Theorem durable_after_close_refuted :
   snd (st_close (add1 (open_store p1 true false false 1000 5 [] 0) 1 10)) = 0 /\ found h09 (vq 0) = [].
 Proof. vm_compute. split; reflexivity. Qed.
+
+(** C10: a segment whose hybrid file is missing, empty or truncated contributes nothing and changes
+    nothing; any missing/empty component makes the load fail before anything is deserialised *)
+Theorem broken_hybrid_ignored t g fh fv ft fm :
+  sg_files g = (fh, fv, ft, fm) -> fh <> FComplete ->
+  (t_vec t <> None \/ t_txt t <> None \/ t_meta t <> None) ->
+  load_segment t g = (t, false).
+Proof.
+  intros Hf Hh Hc. unfold load_segment. rewrite Hf.
+  destruct (t_vec t) as [v|], (t_txt t) as [x|], (t_meta t) as [m|];
+    try (exfalso; destruct Hc as [Hc|[Hc|Hc]]; congruence);
+    destruct fh; try contradiction; destruct fv, ft, fm; reflexivity.
+Qed.
+
+Theorem missing_component_ignored t g fh fv ft fm :
+  sg_files g = (fh, fv, ft, fm) ->
+  (t_vec t <> None /\ (fv = FMissing \/ fv = FEmpty)) \/ (t_txt t <> None /\ (ft = FMissing \/ ft = FEmpty)) \/
+  (t_meta t <> None /\ (fm = FMissing \/ fm = FEmpty)) ->
+  load_segment t g = (t, false).
+Proof.
+  intros Hf H. unfold load_segment. rewrite Hf.
+  destruct (t_vec t) as [v|], (t_txt t) as [x|], (t_meta t) as [m|];
+    destruct H as [[Hn [->| ->]]|[[Hn [->| ->]]|[Hn [->| ->]]]]; try congruence;
+    destruct fh; try reflexivity; destruct fv; try reflexivity; destruct ft; try reflexivity; destruct fm; reflexivity.
+Qed.
+
+(** a load that fails never yields a cached, searchable segment *)
+Theorem failed_load_contributes_nothing rq t g rest acc weak done t1 :
+  sg_cached g = false -> load_segment t g = (t1, false) ->
+  search_segments rq t (g :: rest) acc weak done =
+  search_segments rq t1 rest acc weak
+    (done ++ [{| sg_id := sg_id g; sg_info := sg_info g; sg_T := sg_T g; sg_files := sg_files g; sg_cached := false |}]).
+Proof. intros Hc Hl. cbn [search_segments]. rewrite Hc, Hl. reflexivity. Qed.
